@@ -949,15 +949,15 @@ func (g *gen) genDevice(b *vdev) (*vdev, []string) {
 					for _, x := range a.Blocks {
 						w := x.words()
 						kk, _ := headKind(w)
-						if kk == "tgmap" && len(w) == 4 && w[1] == o.name && r.Chance(70) {
-							w[2] = fmt.Sprint(5 + r.Intn(30))
+						if kk == "tgmap" && len(w) == 4 && w[1] == o.name {
+							w[2] = ns // a rule names an entry of its certificate map by its index
 							x.Head = strings.Join(w, " ")
 						}
 						if kk == "webvpn" {
 							for j, s := range x.Subs {
 								sw := strings.Fields(s)
-								if len(sw) == 4 && sw[1] == o.name && r.Chance(70) {
-									sw[2] = fmt.Sprint(5 + r.Intn(30))
+								if len(sw) == 4 && sw[1] == o.name {
+									sw[2] = ns
 									x.Subs[j] = strings.Join(sw, " ")
 								}
 							}
